@@ -9,8 +9,9 @@ import ClockBound.Rs.Attr
 namespace ClockBound.Rs
 
 /-! ### equations of the recursive functions (they fire on constructors only) -/
-rs_register_eqns eval evalList evalBlock evalArms evalFields callDecl evalWhile evalFor
-rs_register_eqns matchPat matchPat.matchPats matchPat.matchFields bindParams readPlace writePlace findLet
+rs_register_eqns eval evalList evalBlock evalArms evalFields callDecl
+rs_register_loop_eqns evalWhile evalFor
+rs_register_eqns matchPat matchPat.matchPats matchPat.matchFields bindParams readPlace writePlace findLet findWhile
 rs_register_eqns canon constKey lastSeg lastTwo envGet envSet insertField sortFields listGet listSet lookupFn localVar
   ascribeFields updateFields enumOfVariant discrOf sizeOf intConvAt
 
@@ -20,9 +21,13 @@ rs_register_eqns IntTy.ofName IntTy.name IntTy.lo IntTy.hi IntTy.signed IntTy.un
   primPath primCall primMethod primMethod2 intMethod closureMethod primMacro userTypeName typeName chronyOfValue
   rangeEnd callKeys methodDecl Res.outcome statusName chronyName adoptTy iterItems intConvCall runUnary wrapWith
 
-/-! ### small non-recursive definitions, unfolded -/
+/-! ### small non-recursive definitions, unfolded
+
+  `chkInt` (the overflow check) is NOT in `rs_eval`: a proof either unfolds it (`simp [rs_eval, chkInt]`: the
+  check becomes a node `if lo ≤ v ∧ v ≤ hi` of the decision tree — the loop-free groups do this) or
+  discharges it with `chkInt_ok` (`Proofs/RsLoop.lean`: a conditional rewrite, for symbolic iterations). -/
 attribute [rs_eval] run runFuel evalIn defaultFuel Res.popTo St.popTo IntTy.card
-  chkInt wrapInt boolRes enumArity mkStruct List.lookup statusValue chronyValue
+  wrapInt boolRes enumArity mkStruct List.lookup statusValue chronyValue
   runMacro runCast runField Ctx.inputs allIntTys shiftInt St.input St.emit
 
 section
